@@ -580,3 +580,91 @@ Definition alloc_box_r (bs : list N) : option (res aout) :=
       else Some (alloc_table t false hs hl (firstn (N.to_nat (hs - hl)) (skipn (N.to_nat hl) bs)))
     end
   end.
+
+(* ---- senc second phase (mp4/senc.go ParseReadBox + parseAndFillSamples) on the rawData kept by the first phase.
+        perSampleIVSize iv is given by the caller (0 = unknown: inferred, or the sizes 0, 8, 16 are tried in turn).
+        Result: (ok, len(IVs), len(SubSamples), bytes requested, loop iterations).
+        InitializationVector and []SubSamplePattern are slice headers (24 bytes), SubSamplePattern is 8 bytes. ---- *)
+Definition rem_of (raw : list N) (s : rd) : N := lenN raw - r_pos s.
+
+(* parseAndFillSamples after make([][]SubSamplePattern, SampleCount); every read is guarded by NrRemainingBytes.
+   Fuel: an iteration that does not leave consumes >= 2 bytes. *)
+Fixpoint senc_fill_loop (raw : list N) (fuel : nat) (iv cnt i : N) (s : rd) (nIV al it : N) : res (bool * N * N * N * rd) :=
+  match fuel with
+  | O => OutOfFuel
+  | S f =>
+    if cnt <=? i then Ok (true, nIV, al, it, s)
+    else if (0 <? iv) && (rem_of raw s <? iv) then Ok (false, nIV, al, it + 1, s)
+    else
+      let '(s, nIV, al) := if 0 <? iv then (rd_skip raw iv s, nIV + 1, al + 24) else (s, nIV, al) in
+      if rem_of raw s <? 2 then Ok (false, nIV, al, it + 1, s)
+      else
+        let '(ssc, s) := rd_n raw 2 s in
+        if rem_of raw s <? ssc * 6 then Ok (false, nIV, al, it + 1, s)
+        else senc_fill_loop raw f iv cnt (i + 1) (rd_loop raw ssc 6 s) nIV (al + 8 * ssc) (it + 1 + ssc)
+  end.
+
+(* one call of parseAndFillSamples from position 0: (ok, len(IVs), len(SubSamples), alloc, iters) *)
+Definition senc_fill (raw : list N) (iv cnt : N) : res (bool * N * N * N * N) :=
+  match senc_fill_loop raw (S (length raw)) iv cnt 0 rd0 0 (24 * cnt) 0 with
+  | Ok (ok, nIV, al, it, s) =>
+    if negb ok || negb (rem_of raw s =? 0) then Ok (false, 0, 0, al, it) else Ok (true, nIV, cnt, al, it)
+  | Err => Err | Panic => Panic | OutOfFuel => OutOfFuel
+  end.
+
+Definition senc_parse (fl cnt : N) (raw : list N) (iv_in : N) : res (bool * N * N * N * N) :=
+  (* readButNotParsed is false when SampleCount == 0 or there is no raw data: "senc box already parsed" *)
+  if (cnt =? 0) || (lenN raw =? 0) then Ok (false, 0, 0, 0, 0)
+  else
+    let left := lenN raw mod 4294967296 in
+    if negb (has fl 2) then
+      let iv := if iv_in =? 0 then (left / cnt) mod 256 else iv_in in
+      if left <? iv * cnt then Ok (false, 0, 0, 0, 0)
+      else
+        let nrIVs := if iv =? 0 then 0 else cnt in
+        if iv =? 0 then Ok (true, 0, 0, 24 * nrIVs, 0)
+        else if (iv =? 8) || (iv =? 16) then Ok (true, cnt, 0, 24 * nrIVs, cnt)
+        else Ok (false, 0, 0, 24 * nrIVs, 0)
+    else if negb (iv_in =? 0) then senc_fill raw iv_in cnt
+    else
+      match senc_fill raw 0 cnt with
+      | Ok (true, a, b, al, it) => Ok (true, a, b, al, it)
+      | Ok (false, _, _, al0, it0) =>
+        match senc_fill raw 8 cnt with
+        | Ok (true, a, b, al, it) => Ok (true, a, b, al0 + al, it0 + it)
+        | Ok (false, _, _, al1, it1) =>
+          match senc_fill raw 16 cnt with
+          | Ok (ok, a, b, al, it) => Ok (ok, a, b, al0 + al1 + al, it0 + it1 + it)
+          | r => r
+          end
+        | r => r
+        end
+      | r => r
+      end.
+
+(* both phases on a senc box body: DecodeSenc / DecodeSencSR, then ParseReadBox(iv, nil) when a box was returned.
+   o_count = len(IVs) + 2^32 * len(SubSamples) is not used: the result carries both *)
+Definition senc_two_phase (sr_path : bool) (hs hl : N) (body : list N) (iv_in : N) : res (bool * bool * N * N * N * N) :=
+  match alloc_senc sr_path hs hl body with
+  | Ok o =>
+    if negb (o_ok o) then Ok (false, false, 0, 0, 0, 0)
+    else
+      let '(vf, _) := rd_n body 4 rd0 in
+      let raw := firstn (Z.to_nat (apayload_len hs hl - 8)) (skipn 8 body) in
+      match senc_parse (flags_of vf) (o_count o) raw iv_in with
+      | Ok (ok, a, b, al, it) => Ok (true, ok, a, b, al, it)
+      | Err => Err | Panic => Panic | OutOfFuel => OutOfFuel
+      end
+  | Err => Err | Panic => Panic | OutOfFuel => OutOfFuel
+  end.
+
+(* box level for the correspondence: a senc box on one path *)
+Definition senc_box (sr_path : bool) (bs : list N) (iv_in : N) : option (res (bool * bool * N * N * N * N)) :=
+  match hdr_of bs with
+  | None => Some (Ok (false, false, 0, 0, 0, 0))
+  | Some (hs, hl) =>
+    if negb (aeqb_name (name_of bs) [115;101;110;99]) then None
+    else if lenN bs <? hs then Some (Ok (false, false, 0, 0, 0, 0))
+    else Some (senc_two_phase sr_path hs hl
+                 (if sr_path then skipn (N.to_nat hl) bs else firstn (N.to_nat (hs - hl)) (skipn (N.to_nat hl) bs)) iv_in)
+  end.
